@@ -3,6 +3,7 @@
   Property theorems only.  Code: lib/query/sort_value.go, lib/query/view.go (OrderBy, Offset, Limit).
 -/
 import Csvq.Lemmas.SortSpec
+import Csvq.Gen.SortFacts
 namespace Csvq.C07
 open Csvq
 
@@ -157,6 +158,70 @@ theorem limit_number_nonneg (n : Int) : (limitNumber n : Int) = max n 0 := by
 
 /-- an invalid percentage (NaN) is refused instead of reaching the slice -/
 theorem limit_percent_nan (total : Nat) : limitPercent total .nan = none := rfl
+
+/-! ## Tie to the source: the comparison functions of sort_value.go, TRANSLATED on every run
+    (extract/sortfacts → Gen/SortFacts.lean over the flat record `SV` of Model/SortGen.lean) -/
+
+theorem signed_not_nan (b : Bool) (m : Option Nat) : (FVal.signed b m).isNaN = false := by
+  unfold FVal.signed
+  split <;> (try split) <;> rfl
+
+/-- what NewSortValue builds is well formed: the float of an Integer sort value is float64(i), never NaN -/
+theorem toSortVal_wf (p : Profile) (txt : Bytes) : (toSortVal p txt).WF := by
+  unfold toSortVal
+  split
+  · trivial
+  · split
+    · show (FVal.ofInt _).isNaN = false
+      unfold FVal.ofInt
+      split
+      · rfl
+      · exact signed_not_nan _ _
+    · split
+      · trivial
+      · split
+        · trivial
+        · split
+          · trivial
+          · split <;> trivial
+
+
+/-- `SortValue.Less` as it stands in the source IS the model's `SortVal.less` (on which every theorem above
+    rests), for all pairs of sort values -/
+theorem gen_sortLess_eq_model (a b : SortVal) (ha : a.WF) (hb : b.WF) :
+    Gen.sortLess a.toSV b.toSV = a.less b := by
+  cases a <;> cases b <;>
+    simp only [Gen.sortLess, SortVal.toSV, SortVal.less, fltLess, strLess, SortVal.WF, intLt] at * <;>
+    (try simp_all) <;> (try (split <;> simp_all)) <;> (try rfl) <;> (try (split <;> rfl)) <;>
+    (try (split <;> (try rfl) <;> split <;> (try rfl) <;> split <;> rfl))
+
+/-- `SortValue.EquivalentTo` as it stands in the source IS the model's `SortVal.equiv` (WITH TIES) -/
+theorem gen_sortEquiv_eq_model (a b : SortVal) : Gen.sortEquiv a.toSV b.toSV = a.equiv b := by
+  cases a <;> cases b <;> simp only [Gen.sortEquiv, SortVal.toSV, SortVal.equiv] <;> (try simp) <;>
+    (try (rename_i x y; cases x <;> cases y <;> simp)) <;> (try (rename_i x _ _ _; cases x <;> simp <;> exact BEq.comm))
+
+/-- one round of the loop of `SortValues.Less` as it stands in the source is one unfolding of the model's
+    `rowsLess` (direction, then NULL position, else the next column) -/
+theorem gen_rowsLess_step (it : OrdItem) (a b : SortVal) (its : List OrdItem) (as bs : List SortVal) :
+    rowsLess (it :: its) (a :: as) (b :: bs) =
+      match Gen.rowsLessStep (a.less b) a.isNull b.isNull (it.dir == .asc) (it.np == .first) with
+      | some r => r
+      | none => rowsLess its as bs := by
+  obtain ⟨d, n⟩ := it
+  simp only [rowsLess, Gen.rowsLessStep]
+  cases a.less b <;> cases d <;> cases n <;> cases a.isNull <;> cases b.isNull <;> simp
+
+/-- the --strict-equal prefixes that the translator leaves out are the reviewed ones (equal keys are tied;
+    two strings compare by their text; everything else falls through to the typed comparison) -/
+theorem gen_strict_prefix_reviewed :
+    Gen.strictPrefixLess =
+      ["{", "if", "bytes.Equal(v.SerializedKey.Bytes(),", "compareValue.SerializedKey.Bytes())", "{", "return",
+       "ternary.UNKNOWN", "}", "if", "v.SerializedKey.Bytes()[1]", "==", "83", "&&",
+       "compareValue.SerializedKey.Bytes()[1]", "==", "83", "{", "return", "ternary.ConvertFromBool(v.String", "<",
+       "compareValue.String)", "}", "}"] ∧
+    Gen.strictPrefixEquiv =
+      ["{", "return", "bytes.Equal(v.SerializedKey.Bytes(),", "compareValue.SerializedKey.Bytes())", "}"] := by
+  decide
 
 /-! ## non-vacuity -/
 
